@@ -252,8 +252,11 @@ WHITE = ["", " ", "\t", "\n", "  ", " true ", "true ", " 0"]
 
 
 def cases_of(word: str) -> List[str]:
-    alt = "".join(ch.upper() if i % 2 else ch.lower() for i, ch in enumerate(word))
-    return list(dict.fromkeys([word.lower(), word.upper(), word.capitalize(), alt]))
+    """every upper / lower case variant of the word (case-insensitive table: 2^letters variants)"""
+    out = [""]
+    for ch in word:
+        out = [p + c for p in out for c in dict.fromkeys((ch.lower(), ch.upper()))]
+    return out
 
 
 BOOL_STRINGS = [s for w in BOOL_WORDS for s in cases_of(w)]
@@ -319,7 +322,7 @@ def data_for(td, tier: str, rng: random.Random) -> List[Any]:
             add(m)
     for x in base:
         add(x)
-    top = NUMERIC_STRINGS + WHITE + NEAR_WORDS + (BOOL_STRINGS if tier == "thorough" else BOOL_STRINGS[:: 3]) + [2, -1, 1.0, 0.0, 3.7, 10**20, float("inf")]
+    top = NUMERIC_STRINGS + WHITE + NEAR_WORDS + (BOOL_STRINGS if tier == "thorough" else BOOL_STRINGS[:: 5]) + [2, -1, 1.0, 0.0, 3.7, 10**20, float("inf")]
     for x in top:
         add(x)
     return out
@@ -461,7 +464,7 @@ def _run_main(report, tier, rng, pool, realm, opts):
     optsets = [("coerce=True", {}, opts)]
     log = report.driver(
         "coerce_vs_strict",
-        bound=f"type pool of {len(pool)} descriptions x (valid samples, <= {40 if tier == 'quick' else 120} leaf-coercion mutants of each of <= {4 if tier == 'quick' else 8} samples, the C01 datum pool, {len(NUMERIC_STRINGS)} numeric strings, {len(WHITE)} empty / whitespace strings, boolean words in 4 letter cases, near-miss words) x {{strict, coerce=True}} (+ fall_back_on_default / additional_properties for object types)",
+        bound=f"type pool of {len(pool)} descriptions x (valid samples, <= {40 if tier == 'quick' else 120} leaf-coercion mutants of each of <= {4 if tier == 'quick' else 8} samples, the C01 datum pool, {len(NUMERIC_STRINGS)} numeric strings, {len(WHITE)} empty / whitespace strings, boolean words in mixed letter cases, near-miss words) x {{strict, coerce=True}} (+ fall_back_on_default / additional_properties for object types)",
     )
     log.rule("case = (type description, option set, datum), run strict and with coerce=True on the real API; distinct by that triple; non-trivial when the two runs differ or the datum is not a bare primitive of the expected class")
     P.set_sample_aliaser(None)
@@ -589,7 +592,7 @@ def _run_words(report, tier, realm, opts):
     BW = Obj("dataclass", "BoolWord", (M.Fld("flag", P.BOOL), M.Fld("maybe", Opt(P.BOOL), has_default=True, default=None)))
     M.realize(BW, realm)
     types = [P.BOOL, Opt(P.BOOL), Coll("list", P.BOOL), Mapp(P.STR, P.BOOL), Tup((P.BOOL, P.STR)), Lit((True,)), Uni((P.BOOL, P.NONE)), BW]
-    log = report.driver("bool_word_table", bound=f"{len(BOOL_WORDS)} documented words x 4 letter cases ({len(words)} strings) + {len(NEAR_WORDS) + len(WHITE)} near-miss / blank strings x {len(types)} positions of bool", label="E")
+    log = report.driver("bool_word_table", bound=f"the {len(BOOL_WORDS)} documented words in every upper / lower case variant ({len(words)} strings, complete) + {len(NEAR_WORDS) + len(WHITE)} near-miss / blank strings x {len(types)} positions of bool", label="E")
     log.rule("case = (position type, word): accepted with coerce=True exactly for the documented words, in any letter case, with the documented truth value; rejected in strict mode")
 
     def wrap(td, w):
@@ -620,7 +623,7 @@ def _run_words(report, tier, realm, opts):
             d = wrap(td, w)
             s = call(deserialize, tp, copy.deepcopy(d))
             g = call(deserialize, tp, copy.deepcopy(d), coerce=True)
-            log.case((short(td), w), True, sample={"type": short(td), "datum": d, "coerce": g[0]} if w in ("oFf", "YES") else None)
+            log.case((short(td), w), True, sample={"type": short(td), "datum": d, "coerce": g[0]} if w in ("oFf", "YES", "fALSe") else None)
             if s[0] != "err":
                 _fail(log, "strict-accepts-word", td, "strict", d, "a string is accepted where a boolean is expected", s, "err", None)
             if w.lower() in BOOL_WORDS:
